@@ -189,7 +189,7 @@ impl Bench {
         self.ictx.label_map.insert(name.to_string(), Label::new(LabelType::CODE, 0, idx));
     }
     pub fn add_proc(&mut self, name: &str, idx: usize) {
-        self.ictx.fn_map.insert(name.to_string(), idx);
+        self.ictx.fn_map.insert(name.to_string(), idx as _);
     }
     /// set specific memory cells (kept in shadow too, i.e. they become part of the pre-state)
     pub fn poke(&mut self, addr: u32, v: u8) {
